@@ -9,11 +9,11 @@ EXPLANATION = (
     "format_code result, or from the unchanged input on the should_skip edge, and never on the error edge; (R-FS) "
     "no file-system mutation is reachable from format_string; the library never touches stdout; (R-IGNOREARG) both questions `is this path ignored?` (stdin path, walked file) pass opt.search_parent_directories itself. Not decided: "
     "partial writes (OS), exit code beyond R-EXIT."
-    "Later rounds: (R-CFG(e)) overrides are applied last on the stdin fallback too; (R-CFG(k)); (R-STDOUT) a println! of format runs only under output formats that are refused without --check; (R-EXACTREAD). Rounds 17-19: (R-IGNOREMATCH); (R-ERRSTATUS via C13/C14 rules is not repeated here). Rounds 20-21: no env_logger target other than stderr.")
+    "Later rounds: (R-CFG(e)) overrides are applied last on the stdin fallback too; (R-CFG(k)); (R-STDOUT) a println! of format runs only under output formats that are refused without --check; (R-EXACTREAD). Rounds 17-19: (R-IGNOREMATCH); (R-ERRSTATUS via C13/C14 rules is not repeated here). Rounds 20-21: no env_logger target other than stderr. Round 23: (R-IGNOREGUARD) the stdin-mode ignore lookup is reached from the true edge of the opt.respect_ignores test by unconditional edges only.")
 ASSUMPTIONS = ["std::io::Write::write_all writes exactly its argument or reports an error",
                "rustc MIR and Instance::try_resolve are trusted"]
 
 
 def run(ctx):
     return [r_cli.rule_stdout(ctx, "C17", stdin_clause=True), r_cli.rule_fs(ctx, "C17", stdin_clause=True),
-            r_cli.rule_ignore_arg(ctx, "C17"), r_cfg.rule_search_start(ctx, "C17"), r_cli.rule_workers(ctx, "C17"), r_cli.rule_exact_read(ctx, "C17"), r_cfg.rule_override_last(ctx, "C17"), r_cfg.rule_stdin_filepath(ctx, "C17"), r_cli.rule_ignore_match(ctx, "C17")]
+            r_cli.rule_ignore_arg(ctx, "C17"), r_cfg.rule_search_start(ctx, "C17"), r_cli.rule_workers(ctx, "C17"), r_cli.rule_exact_read(ctx, "C17"), r_cfg.rule_override_last(ctx, "C17"), r_cfg.rule_stdin_filepath(ctx, "C17"), r_cli.rule_ignore_match(ctx, "C17"), r_cli.rule_ignore_guard(ctx, "C17")]
